@@ -1641,3 +1641,972 @@ func init() {
 		},
 	})
 }
+
+// ---------------------------------------------------------------------------
+// C09.partialfill
+// ---------------------------------------------------------------------------
+
+func init() {
+	register(&Rule{
+		ID:    "C09.partialfill",
+		Props: []string{"C09", "C20", "C16", "C13"},
+		Doc:   "a buffer allocated at full length and filled selectively is cut to what was filled: when a slice made with a non-zero length is written at a position that is NOT written in every iteration of the loop (a store under a condition, at a cursor that advances only when something is kept), the value that leaves the function — returned, passed on, ranged over — is that slice re-sliced (`buf[:k]`), never the full-length slice, whose tail still holds zero values (a phantom segment (0,0)-(0,0) for every skipped zero-length segment)",
+		Floor: 0,
+		Run: func(c *Ctx) {
+			for _, f := range c.P.Funcs {
+				if pk := pkgOf(f); (pk != "geom" && pk != "rtree") || len(f.Blocks) == 0 {
+					continue
+				}
+				eachInstr(f, func(in ssa.Instruction) {
+					ms, ok := in.(*ssa.MakeSlice)
+					if !ok {
+						return
+					}
+					if k, isC := constInt(ms.Len); isC && k == 0 {
+						return
+					}
+					// conditional element stores in a loop
+					partial := false
+					var storePos token.Pos
+					direct := map[ssa.Instruction]bool{}
+					for _, r := range *ms.Referrers() {
+						ia, ok := r.(*ssa.IndexAddr)
+						if !ok {
+							continue
+						}
+						direct[ia] = true
+						for _, rr := range *ia.Referrers() {
+							st, ok := rr.(*ssa.Store)
+							if !ok || st.Addr != ssa.Value(ia) {
+								continue
+							}
+							var loop map[*ssa.BasicBlock]bool
+							var hdr *ssa.BasicBlock
+							for _, h := range f.Blocks {
+								if l := naturalLoop(h); l != nil && l[st.Block()] && (loop == nil || len(l) < len(loop)) {
+									loop, hdr = l, h
+								}
+							}
+							if loop == nil {
+								continue
+							}
+							every := true
+							for _, p := range hdr.Preds {
+								if loop[p] && !st.Block().Dominates(p) {
+									every = false
+								}
+							}
+							// written at the loop's own counter on every iteration: a full fill
+							if every {
+								continue
+							}
+							// a conditional store at the loop's own induction variable leaves gaps: C16.fill's subject;
+							// here: a separate cursor
+							// only a separate cursor counts: a value carried round the loop that is
+							// advanced on some iterations only (a phi of the header that is not the
+							// loop's own counter); positions computed from the loop counter are a layout
+							cur, isPhi := stripConv(ia.Index).(*ssa.Phi)
+							if !isPhi || naturalLoop(cur.Block()) == nil || !naturalLoop(cur.Block())[st.Block()] {
+								continue
+							}
+							if _, isInd := inductionPhi(cur); isInd {
+								continue
+							}
+							partial = true
+							storePos = st.Pos()
+						}
+					}
+					if !partial {
+						return
+					}
+					fn := FuncName(f)
+					bad := ""
+					for _, r := range *ms.Referrers() {
+						switch x := r.(type) {
+						case *ssa.IndexAddr, *ssa.DebugRef:
+						case *ssa.Slice:
+							if x.High == nil {
+								bad = "re-sliced without an upper bound at " + c.P.Pos(x.Pos())
+							}
+						case *ssa.Call:
+							if b, ok := x.Call.Value.(*ssa.Builtin); ok && (b.Name() == "len" || b.Name() == "cap" || b.Name() == "copy") {
+								continue
+							}
+							bad = "passed on at full length at " + c.P.Pos(x.Pos())
+						case *ssa.Return:
+							bad = "returned at full length at " + c.P.Pos(instrPos(x))
+						case *ssa.Store:
+							if x.Val == ssa.Value(ms) {
+								// kept in a variable: its loads are the uses
+								if al, ok := x.Addr.(*ssa.Alloc); ok {
+									for _, ar := range *al.Referrers() {
+										if ld, ok := ar.(*ssa.UnOp); ok {
+											for _, lr := range *ld.Referrers() {
+												switch y := lr.(type) {
+												case *ssa.Return:
+													bad = "returned at full length at " + c.P.Pos(instrPos(y))
+												case *ssa.Slice:
+													if y.High == nil {
+														bad = "re-sliced without an upper bound at " + c.P.Pos(y.Pos())
+													}
+												}
+											}
+										}
+									}
+								} else {
+									bad = "stored at full length at " + c.P.Pos(x.Pos())
+								}
+							}
+						case *ssa.Phi, *ssa.MakeInterface, *ssa.Range:
+							bad = "used at full length at " + c.P.Pos(instrPos(r))
+						}
+					}
+					c.Check(bad == "", ms.Pos(), fn, "selectively filled buffer", "only its filled prefix leaves the function", "the slice is made with its full length, elements are stored only for the items that are kept (store at "+c.P.Pos(storePos)+" is skipped on some iterations), and it is "+bad+": its tail still holds zero values, which the consumer takes for data")
+				})
+			}
+		},
+	})
+}
+
+// ---------------------------------------------------------------------------
+// C08.depthpair: a nesting counter is given back on every way out
+// ---------------------------------------------------------------------------
+
+func init() {
+	register(&Rule{
+		ID:    "C08.depthpair",
+		Props: []string{"C08", "C05", "C04", "C06", "C07"},
+		Doc:   "a nesting-depth counter is balanced: when a method increments by one an integer field of its receiver that is a depth counter (the field is decremented somewhere in the package, or is called depth/level/nesting), every return of that method that can report success and is reachable from the increment is reached only through a decrement of the same field (or the method defers one) — a limit on nesting that forgets to give the level back on one path (the EMPTY branch, or altogether) counts siblings instead of depth and rejects wide, shallow inputs that the encoder itself produces",
+		Floor: 0,
+		Run:   runC08DepthPair,
+	})
+}
+
+func runC08DepthPair(c *Ctx) {
+	type key struct{ typ, fld string }
+	// step: the store adds k (a constant) to the field it stores to
+	step := func(st *ssa.Store) (key, int64, ssa.Value, bool) {
+		fa, ok := st.Addr.(*ssa.FieldAddr)
+		if !ok {
+			return key{}, 0, nil, false
+		}
+		bo, ok := st.Val.(*ssa.BinOp)
+		if !ok || (bo.Op != token.ADD && bo.Op != token.SUB) {
+			return key{}, 0, nil, false
+		}
+		k, ok := constInt(bo.Y)
+		if !ok {
+			return key{}, 0, nil, false
+		}
+		ld, ok := bo.X.(*ssa.UnOp)
+		if !ok || ld.Op != token.MUL {
+			return key{}, 0, nil, false
+		}
+		fa2, ok := ld.X.(*ssa.FieldAddr)
+		if !ok || fa2.Field != fa.Field || !(fa2.X == fa.X || sameValue(fa2.X, fa.X)) {
+			return key{}, 0, nil, false
+		}
+		tn, fld := fieldOfAddr(fa)
+		if bo.Op == token.SUB {
+			k = -k
+		}
+		return key{tn, fld}, k, fa.X, true
+	}
+	decremented := map[key]bool{}
+	for _, f := range c.P.Funcs {
+		if !c.P.InRepo(f) {
+			continue
+		}
+		eachInstr(f, func(in ssa.Instruction) {
+			if st, ok := in.(*ssa.Store); ok {
+				if k, d, _, ok := step(st); ok && d == -1 {
+					decremented[k] = true
+				}
+			}
+		})
+	}
+	n := 0
+	for _, f := range c.P.Funcs {
+		if !c.P.InRepo(f) || len(f.Blocks) == 0 || f.Signature.Recv() == nil {
+			continue
+		}
+		fn := FuncName(f)
+		eachInstr(f, func(in ssa.Instruction) {
+			st, ok := in.(*ssa.Store)
+			if !ok {
+				return
+			}
+			k, d, base, ok := step(st)
+			if !ok || d != 1 {
+				return
+			}
+			if p, isPar := stripLoad(base).(*ssa.Parameter); !isPar || p != f.Params[0] {
+				return
+			}
+			lname := strings.ToLower(k.fld)
+			if !decremented[k] && !strings.Contains(lname, "depth") && !strings.Contains(lname, "level") && !strings.Contains(lname, "nest") {
+				return
+			}
+			n++
+			construct := "level taken by " + k.typ + "." + k.fld + "++"
+			// a deferred decrement covers every way out
+			deferred := false
+			eachInstr(f, func(in2 ssa.Instruction) {
+				df, ok := in2.(*ssa.Defer)
+				if !ok {
+					return
+				}
+				var g *ssa.Function
+				if mc, ok := df.Call.Value.(*ssa.MakeClosure); ok {
+					g, _ = mc.Fn.(*ssa.Function)
+				} else {
+					g = df.Call.StaticCallee()
+				}
+				if g == nil || len(g.Blocks) == 0 {
+					return
+				}
+				eachInstr(g, func(in3 ssa.Instruction) {
+					if st3, ok := in3.(*ssa.Store); ok {
+						if k3, d3, _, ok := step(st3); ok && k3 == k && d3 == -1 {
+							deferred = true
+						}
+					}
+				})
+			})
+			if deferred {
+				c.OK(st.Pos(), fn, construct, "given back by a deferred decrement")
+				return
+			}
+			gives := func(b *ssa.BasicBlock, from int) bool {
+				for i := from; i < len(b.Instrs); i++ {
+					if st2, ok := b.Instrs[i].(*ssa.Store); ok {
+						if k2, d2, _, ok := step(st2); ok && k2 == k && d2 == -1 {
+							return true
+						}
+					}
+				}
+				return false
+			}
+			bad := ""
+			seen := map[*ssa.BasicBlock]bool{}
+			var walk func(b *ssa.BasicBlock, from int)
+			walk = func(b *ssa.BasicBlock, from int) {
+				if bad != "" || gives(b, from) {
+					return
+				}
+				if r, ok := b.Instrs[len(b.Instrs)-1].(*ssa.Return); ok {
+					res := f.Signature.Results()
+					if res.Len() > 0 && isErrorType(res.At(res.Len()-1).Type()) && provablyNonNilErr(r) {
+						return // the parse is abandoned: the level does not matter any more
+					}
+					bad = c.P.Pos(instrPos(r))
+					return
+				}
+				for _, s := range b.Succs {
+					if !seen[s] {
+						seen[s] = true
+						walk(s, 0)
+					}
+				}
+			}
+			walk(st.Block(), instrIndex(st)+1)
+			c.Check(bad == "", st.Pos(), fn, construct, "given back before every successful return", "the nesting level is raised here but the return at "+bad+" can report success without it having been lowered again: the counter then counts every construct met so far (siblings too), not the depth, and a wide but shallow input is rejected as too deeply nested")
+		})
+	}
+	c.Triv(token.NoPos, "-", "summary", fmt.Sprintf("%d nesting counters incremented by a method of their owner", n))
+}
+
+// ---------------------------------------------------------------------------
+// C14.signedlength
+// ---------------------------------------------------------------------------
+
+func init() {
+	register(&Rule{
+		ID:    "C14.signedlength",
+		Props: []string{"C14", "C09"},
+		Doc:   "a length is not a signed difference: no function of geom or rtree whose name says length or distance returns, on any path, the bare difference of two values (`return dy`) — a fast path for axis-aligned segments that takes |dx| on one axis and dy on the other gives a downward vertical segment a negative length, and with it a negative weight in every length-weighted centroid",
+		Floor: 5,
+		Run: func(c *Ctx) {
+			for _, f := range c.P.Funcs {
+				if pk := pkgOf(f); (pk != "geom" && pk != "rtree") || len(f.Blocks) == 0 || f.Parent() != nil {
+					continue
+				}
+				ln := strings.ToLower(f.Name())
+				if !strings.Contains(ln, "length") && !strings.Contains(ln, "distance") && !strings.Contains(ln, "dist") {
+					continue
+				}
+				res := f.Signature.Results()
+				if res.Len() == 0 || !isFloat(res.At(0).Type()) {
+					continue
+				}
+				fn := FuncName(f)
+				k := 0
+				for _, r := range returnsOf(f) {
+					k++
+					bad := false
+					seen := map[ssa.Value]bool{}
+					var walk func(v ssa.Value, d int)
+					walk = func(v ssa.Value, d int) {
+						v = resolveCell(stripConv(v))
+						if d > 4 || seen[v] {
+							return
+						}
+						seen[v] = true
+						switch x := v.(type) {
+						case *ssa.BinOp:
+							if x.Op == token.SUB {
+								if _, isC := stripConv(x.X).(*ssa.Const); !isC {
+									bad = true
+								}
+							}
+						case *ssa.Phi:
+							for _, e := range x.Edges {
+								walk(e, d+1)
+							}
+						}
+					}
+					walk(r.Results[0], 0)
+					c.Check(!bad, instrPos(r), fn, fmt.Sprintf("value returned as a length #%d", k), "not a bare difference", "the function returns the difference of two values as a length or distance: it is negative whenever the operands come in the other order")
+				}
+			}
+		},
+	})
+}
+
+func dumpLocalArrays(c *Ctx) {
+	for _, f := range c.P.Funcs {
+		if !c.P.InRepo(f) {
+			continue
+		}
+		eachInstr(f, func(in ssa.Instruction) {
+			ia, ok := in.(*ssa.IndexAddr)
+			if !ok {
+				return
+			}
+			al, ok := ia.X.(*ssa.Alloc)
+			if !ok {
+				return
+			}
+			at, ok := deref(al.Type()).Underlying().(*types.Array)
+			if !ok {
+				return
+			}
+			if _, isC := constInt(ia.Index); isC {
+				return
+			}
+			_, hi, _, hasHi := intBounds(ia, ia.Index)
+			fmt.Printf("%s\t%s\t[%d]\thi=%d(%v)\n", c.P.Pos(ia.Pos()), FuncName(f), at.Len(), hi, hasHi)
+		})
+	}
+}
+
+// ---------------------------------------------------------------------------
+// C11.fixedarray
+// ---------------------------------------------------------------------------
+
+func init() {
+	register(&Rule{
+		ID:    "C11.fixedarray",
+		Props: []string{"C11", "C08", "C20"},
+		Doc:   "a fixed-size local array indexed by a variable is bounds-guarded: every index into a local array of constant size N by a non-constant value is evaluated only where a guard keeps the value below N (a comparison with a constant <= N, or with len of the array, or `!= N` for a cursor that only moves one step at a time) — an explicit traversal stack `[16]*node` sized by a belief about tree depth overflows as soon as every sibling at every level is pending (an enclosing query on a tree of more than 4096 records)",
+		Floor: 0,
+		Run: func(c *Ctx) {
+			n := 0
+			for _, f := range c.P.Funcs {
+				if !c.P.InRepo(f) {
+					continue
+				}
+				eachInstr(f, func(in ssa.Instruction) {
+					ia, ok := in.(*ssa.IndexAddr)
+					if !ok {
+						return
+					}
+					al, ok := ia.X.(*ssa.Alloc)
+					if !ok {
+						return
+					}
+					at, ok := deref(al.Type()).Underlying().(*types.Array)
+					if !ok {
+						return
+					}
+					if _, isC := constInt(ia.Index); isC {
+						return
+					}
+					n++
+					N := at.Len()
+					okBound := false
+					if _, hi, _, hasHi := intBounds(ia, ia.Index); hasHi && hi < N {
+						okBound = true
+					}
+					for _, g0 := range guardsAt(ia) {
+						for _, g := range expandGuardDeep(g0) {
+							bo, ok := g.Cond.(*ssa.BinOp)
+							if !ok || !sameQuantity(bo.X, ia.Index) {
+								continue
+							}
+							// idx < len(arr), idx != N (cursor moving by one)
+							if call, isCall := stripConv(bo.Y).(*ssa.Call); isCall {
+								if b, isB := call.Call.Value.(*ssa.Builtin); isB && b.Name() == "len" {
+									if (bo.Op == token.LSS && g.Truth) || (bo.Op == token.GEQ && !g.Truth) || (bo.Op == token.NEQ && g.Truth) || (bo.Op == token.EQL && !g.Truth) {
+										okBound = true
+									}
+								}
+							}
+							if k, isC := constInt(stripConv(bo.Y)); isC && k == N {
+								if (bo.Op == token.NEQ && g.Truth) || (bo.Op == token.EQL && !g.Truth) {
+									okBound = true
+								}
+							}
+						}
+					}
+					is, _ := accessPath(ia.Index)
+					c.Check(okBound, ia.Pos(), FuncName(f), fmt.Sprintf("index %s into a local [%d] array", trunc(is), N), "below the array's size where it is evaluated", fmt.Sprintf("nothing keeps the index below %d where the local array is indexed: when more than %d entries are needed the access panics (index out of range)", N, N))
+				})
+			}
+			c.Triv(token.NoPos, "-", "summary", fmt.Sprintf("%d variable indexes into local fixed-size arrays", n))
+		},
+	})
+}
+
+// ---------------------------------------------------------------------------
+// C07.quantise
+// ---------------------------------------------------------------------------
+
+func init() {
+	register(&Rule{
+		ID:    "C07.quantise",
+		Props: []string{"C07"},
+		Doc:   "TWKB ordinates are quantised by rounding, never by integer division: in the methods of twkbWriter (and the helpers introduced after the baseline that they call) no integer `/` or `%` is applied to a value converted from a float — `int64(math.Round(v)) / 10^k` truncates toward zero, so at a negative precision 1600 is written as 1000 where the format (and the decoder's `unscale`) expect the nearest multiple, 2000",
+		Floor: 0,
+		Run: func(c *Ctx) {
+			n := 0
+			seen := map[*ssa.Function]bool{}
+			var fs []*ssa.Function
+			for _, f := range c.P.methodsOf("geom", "twkbWriter") {
+				for _, g := range withNewHelpers(f) {
+					if !seen[g] {
+						seen[g] = true
+						fs = append(fs, g)
+					}
+				}
+			}
+			fromFloat := func(v ssa.Value) bool {
+				for i := 0; i < 4; i++ {
+					cv, ok := v.(*ssa.Convert)
+					if !ok {
+						return false
+					}
+					if isFloat(cv.X.Type()) {
+						return true
+					}
+					v = cv.X
+				}
+				return false
+			}
+			for _, f := range fs {
+				eachInstr(f, func(in ssa.Instruction) {
+					bo, ok := in.(*ssa.BinOp)
+					if !ok || (bo.Op != token.QUO && bo.Op != token.REM) || isFloat(bo.Type()) {
+						return
+					}
+					n++
+					c.Check(!fromFloat(bo.X), bo.Pos(), FuncName(f), "integer "+bo.Op.String()+" in the TWKB writer", "not applied to a quantised ordinate", "an ordinate converted from float is divided with integer arithmetic: the quotient is truncated toward zero instead of rounded to the nearest grid value, so off-grid ordinates are written one grid step too small in magnitude")
+				})
+			}
+			c.Triv(token.NoPos, "-", "summary", fmt.Sprintf("%d integer divisions in the TWKB writer", n))
+		},
+	})
+}
+
+// ---------------------------------------------------------------------------
+// C11.search: RangeSearch on a modelled tree, whatever its traversal style
+// ---------------------------------------------------------------------------
+
+func init() {
+	register(&Rule{
+		ID:    "C11.search",
+		Props: []string{"C11", "C09", "C03"},
+		Doc:   "RangeSearch reports exactly the records whose box overlaps the query and whose ancestors' boxes all do: the whole function (recursive closure, recursive helper or explicit stack alike) is interpreted on a modelled two-level tree — a root with a subtree of two records, a record of its own and a second subtree of two records — for all 128 combinations of the seven overlap answers; the callback must be made once for each such record and for no other; and when the callback answers Stop for the first record reported, no further callback is made and the search returns nil",
+		Floor: 1,
+		Run:   runC11Search,
+	})
+}
+
+func runC11Search(c *Ctx) {
+	f := c.P.Func("rtree.(*RTree).RangeSearch")
+	if f == nil {
+		c.Errorf("anchor rtree.(*RTree).RangeSearch does not resolve")
+		return
+	}
+	type ent struct {
+		node  string
+		idx   int
+		child string
+		rec   int
+	}
+	ents := []ent{{"R", 0, "A", 0}, {"R", 1, "", 30}, {"R", 2, "B", 0}, {"A", 0, "", 10}, {"A", 1, "", 11}, {"B", 0, "", 20}, {"B", 1, "", 21}}
+	sizes := map[string]int{"R": 3, "A": 2, "B": 2}
+	problem, undec := "", ""
+	models := 0
+	for variant := 0; variant < 4; variant++ {
+		stopFirst := variant&1 != 0
+		pointQuery := variant&2 != 0 // a degenerate query box (a point) and a proper one
+		for mask := 0; mask < 128 && problem == "" && undec == ""; mask++ {
+			models++
+			m := &Model{Num: map[string]float64{"$1.MinX": 0, "$1.MinY": 0, "$1.MaxX": 2, "$1.MaxY": 2}, Bool: map[string]bool{}, Missing: map[string]bool{}}
+			if pointQuery {
+				m.Num["$1.MinX"], m.Num["$1.MinY"], m.Num["$1.MaxX"], m.Num["$1.MaxY"] = 1, 1, 1, 1
+			}
+			it := &k4interp{p: c.P, m: m, mem: map[string]k4val{}, recurseNew: true}
+			it.mem["$0.root"] = k4val{kind: 3, s: "R", addr: true}
+			for nd, k := range sizes {
+				it.mem[nd+".numEntries"] = k4val{kind: 2, f: float64(k)}
+			}
+			ov := map[string]bool{}
+			for i, e := range ents {
+				base := fmt.Sprintf("%s.entries[%d]", e.node, e.idx)
+				name := fmt.Sprintf("BOX:%s%d", e.node, e.idx)
+				ov[name] = mask&(1<<uint(i)) != 0
+				it.mem[base+".box"] = k4val{kind: 3, s: name}
+				if e.child != "" {
+					it.mem[base+".child"] = k4val{kind: 3, s: e.child, addr: true}
+				} else {
+					it.mem[base+".child"] = k4val{kind: 3, s: "nil"}
+				}
+				it.mem[base+".recordID"] = k4val{kind: 2, f: float64(e.rec)}
+			}
+			want := map[int]bool{}
+			parentOv := map[string]bool{"R": true, "A": ov["BOX:R0"], "B": ov["BOX:R2"]}
+			for _, e := range ents {
+				if e.child == "" && parentOv[e.node] && ov[fmt.Sprintf("BOX:%s%d", e.node, e.idx)] {
+					want[e.rec] = true
+				}
+			}
+			var got []int
+			it.opaqueCall = func(args []k4val) (string, bool) {
+				if len(args) == 1 && args[0].kind == 2 {
+					got = append(got, int(args[0].f))
+					return fmt.Sprintf("callback(%d)#%d", int(args[0].f), len(got)), true
+				}
+				return "", false
+			}
+			isStop := func(key string) bool { return stopFirst && strings.Contains(key, ")#1") }
+			it.answer = func(key string, isBool bool) (k4val, bool) {
+				if !isBool {
+					return k4val{}, false
+				}
+				if i := strings.Index(key, "rtree.overlap("); i >= 0 {
+					for name, b := range ov {
+						if strings.Contains(key, "("+name+",") || strings.Contains(key, ","+name+")") {
+							return k4val{kind: 1, b: b}, true
+						}
+					}
+				}
+				if strings.HasPrefix(key, "errors.Is(nil,") {
+					return k4val{kind: 1, b: false}, true
+				}
+				if strings.Contains(key, "callback(") {
+					switch {
+					case strings.Contains(key, "errors.Is("):
+						return k4val{kind: 1, b: isStop(key)}, true
+					case strings.Contains(key, "==nil"):
+						return k4val{kind: 1, b: !isStop(key)}, true
+					case strings.Contains(key, "!=nil"):
+						return k4val{kind: 1, b: isStop(key)}, true
+					}
+				}
+				return k4val{}, false
+			}
+			res, err := it.call(f, []k4val{{kind: 3, s: "$0"}, {kind: 3, s: "$1"}, {kind: 3, s: "$2"}}, nil)
+			if err != nil || len(res) != 1 {
+				undec = fmt.Sprintf("%v %v %s", err, res, trunc(missingList(m)))
+				break
+			}
+			desc := fmt.Sprintf("overlap answers %07b (root entries: subtree A, record 30, subtree B; then A's records 10, 11 and B's 20, 21; point query: %v)", mask, pointQuery)
+			if stopFirst {
+				if len(want) == 0 {
+					continue
+				}
+				if len(got) != 1 || !want[got[0]] {
+					problem = fmt.Sprintf("for %s, with the callback answering Stop at once, the callbacks made are %v: exactly one (for an overlapping record) is expected", desc, got)
+				} else if res[0].String() != "nil" {
+					if a, ok := it.answer("("+res[0].String()+"==nil)", true); !ok || !a.b {
+						if !strings.Contains(res[0].String(), "nil") {
+							problem = fmt.Sprintf("for %s, with the callback answering Stop, RangeSearch returns %s, not nil", desc, trunc(res[0].String()))
+						}
+					}
+				}
+				continue
+			}
+			seen := map[int]int{}
+			for _, r := range got {
+				seen[r]++
+			}
+			for r := range want {
+				if seen[r] != 1 {
+					problem = fmt.Sprintf("for %s record %d must be reported exactly once, it is reported %d time(s) (callbacks: %v)", desc, r, seen[r], got)
+				}
+			}
+			for r := range seen {
+				if !want[r] {
+					problem = fmt.Sprintf("for %s record %d is reported although its box (or an ancestor's) does not overlap the query (callbacks: %v)", desc, r, got)
+				}
+			}
+		}
+	}
+	reportK4(c, f, "records reported on a modelled tree", undec, problem, fmt.Sprintf("exactly the records overlapping along their whole path, each once; Stop ends the search (%d models)", models))
+}
+
+// ---------------------------------------------------------------------------
+// C15.gcboundary
+// ---------------------------------------------------------------------------
+
+func init() {
+	register(&Rule{
+		ID:    "C15.gcboundary",
+		Props: []string{"C15", "C20"},
+		Doc:   "the boundary of a collection is the collection of its MEMBERS' non-empty boundaries: GeometryCollection.Boundary interpreted on two direct members — the first itself a collection of two leaves — with every combination of empty/non-empty member boundaries yields one element per direct member with a non-empty boundary, namely that member's Boundary() (forced to 2D), in member order; a traversal that flattens nested collections (walk) returns the leaves' boundaries instead, with a different member count and structure",
+		Floor: 1,
+		Run:   runC15GCBoundary,
+	})
+}
+
+func runC15GCBoundary(c *Ctx) {
+	f := c.P.Func("geom.(GeometryCollection).Boundary")
+	if f == nil {
+		c.Errorf("anchor geom.(GeometryCollection).Boundary does not resolve")
+		return
+	}
+	inl := func(g *ssa.Function) bool {
+		switch FuncName(g) {
+		case "geom.(GeometryCollection).walk", "geom.(GeometryCollection).NumGeometries", "geom.(GeometryCollection).GeometryN":
+			return true
+		}
+		return false
+	}
+	problem, undec := "", ""
+	models := 0
+	for mask := 0; mask < 16 && problem == "" && undec == ""; mask++ {
+		models++
+		m := &Model{Num: map[string]float64{}, Bool: map[string]bool{}, Missing: map[string]bool{}}
+		it := &k4interp{p: c.P, m: m, mem: map[string]k4val{}, inline: inl, recurseNew: true}
+		it.mem["$0.geoms"] = k4val{kind: 8, s: "MEM", ln: 2, cp: 2}
+		for _, k := range []string{"MEM[0]", "MEM[1]", "SUB[0]", "SUB[1]"} {
+			it.mem[k] = k4val{kind: 3, s: k}
+		}
+		// MEM[0] is a collection of the leaves SUB[0], SUB[1]
+		it.mem["geom.(Geometry).MustAsGeometryCollection(MEM[0]).geoms"] = k4val{kind: 8, s: "SUB", ln: 2, cp: 2}
+		emptyB := map[string]bool{"MEM[0]": mask&1 != 0, "MEM[1]": mask&2 != 0, "SUB[0]": mask&4 != 0, "SUB[1]": mask&8 != 0}
+		it.answer = func(key string, isBool bool) (k4val, bool) {
+			if !isBool {
+				return k4val{}, false
+			}
+			switch {
+			case strings.HasPrefix(key, "geom.(GeometryCollection).IsEmpty($0"):
+				return k4val{kind: 1, b: false}, true
+			case strings.HasPrefix(key, "geom.(Geometry).IsGeometryCollection("):
+				return k4val{kind: 1, b: strings.Contains(key, "(MEM[0])")}, true
+			case strings.Contains(key, ").IsEmpty(") && strings.Contains(key, "Boundary("):
+				for g, e := range emptyB {
+					if strings.Contains(key, "Boundary("+g+")") {
+						return k4val{kind: 1, b: e}, true
+					}
+				}
+			}
+			return k4val{}, false
+		}
+		res, err := it.call(f, []k4val{{kind: 3, s: "$0"}}, nil)
+		if err != nil || len(res) != 1 || res[0].kind != 3 {
+			undec = fmt.Sprintf("%v %v %s", err, res, trunc(missingList(m)))
+			break
+		}
+		var want []string
+		for _, g := range []string{"MEM[0]", "MEM[1]"} {
+			if !emptyB[g] {
+				want = append(want, g)
+			}
+		}
+		// the member list of the result: a field of the returned literal, or the argument of a constructor
+		var got []string
+		lst, ok := it.mem[res[0].s+".geoms"]
+		if !ok && len(want) > 0 {
+			problem = fmt.Sprintf("with member boundaries empty=%v the result %s has no member list", emptyB, trunc(res[0].String()))
+			break
+		}
+		if lst.kind == 8 {
+			for i := 0; i < lst.ln; i++ {
+				got = append(got, it.mem[fmt.Sprintf("%s[%d]", lst.s, lst.off+i)].String())
+			}
+		}
+		good := len(got) == len(want)
+		for i := 0; good && i < len(want); i++ {
+			if !strings.Contains(got[i], "Boundary("+want[i]+")") {
+				good = false
+			}
+		}
+		if !good {
+			problem = fmt.Sprintf("for a collection [MEM[0] = collection of SUB[0], SUB[1]; MEM[1]] whose boundaries are empty=%v the result's members are %v; expected the boundaries of the direct members %v", emptyB, got, want)
+		}
+	}
+	reportK4(c, f, "members of the boundary", undec, problem, fmt.Sprintf("the non-empty boundaries of the direct members, in order (%d models)", models))
+}
+
+// ---------------------------------------------------------------------------
+// C09.recordids
+// ---------------------------------------------------------------------------
+
+func init() {
+	register(&Rule{
+		ID:    "C09.recordids",
+		Props: []string{"C09"},
+		Doc:   "the record numbering of Distance's index is the one its search callback decodes: loadTree interpreted on 0..2 points and 0..2 segments hands rtree.BulkLoad one item per point and per segment, point i numbered +(i+1) and segment j numbered -(j+1) whatever the number of points, each with the box of its own point or segment — the callback turns a positive id k into xys[k-1] and a negative one into lns[-k-1], so numbering the segments after the points addresses the wrong segment (or none) as soon as the operand has both",
+		Floor: 1,
+		Run: func(c *Ctx) {
+			f := c.P.Func("geom.loadTree")
+			if f == nil {
+				c.Errorf("anchor geom.loadTree does not resolve")
+				return
+			}
+			problem, undec := "", ""
+			models := 0
+			for np := 0; np <= 2 && problem == "" && undec == ""; np++ {
+				for nl := 0; nl <= 2 && problem == "" && undec == ""; nl++ {
+					models++
+					m := &Model{Num: map[string]float64{}, Bool: map[string]bool{}, Missing: map[string]bool{}}
+					it := &k4interp{p: c.P, m: m, mem: map[string]k4val{}}
+					for i := 0; i < np; i++ {
+						it.mem[fmt.Sprintf("XYS[%d]", i)] = k4val{kind: 3, s: fmt.Sprintf("XYS[%d]", i)}
+					}
+					for i := 0; i < nl; i++ {
+						it.mem[fmt.Sprintf("LNS[%d]", i)] = k4val{kind: 3, s: fmt.Sprintf("LNS[%d]", i)}
+					}
+					type item struct {
+						id  int
+						box string
+					}
+					var got []item
+					seen := false
+					it.onOpaque = func(name string, args []k4val) {
+						if name != "rtree.BulkLoad" || len(args) != 1 || args[0].kind != 8 {
+							return
+						}
+						seen = true
+						for i := 0; i < args[0].ln; i++ {
+							base := fmt.Sprintf("%s[%d]", args[0].s, args[0].off+i)
+							id, _ := it.lookup(base+".RecordID", nil0)
+							bx := it.mem[base+".Box"]
+							if el, ok := it.mem[base]; ok && el.kind == 3 {
+								// an element stored as a whole (append of a literal): its fields live under its own key
+								id, _ = it.lookup(el.s+".RecordID", nil0)
+								bx = it.mem[el.s+".Box"]
+							}
+							got = append(got, item{int(id.f), bx.String()})
+						}
+					}
+					_, err := it.call(f, []k4val{{kind: 8, s: "XYS", ln: np, cp: np}, {kind: 8, s: "LNS", ln: nl, cp: nl}}, nil)
+					if err != nil || !seen {
+						undec = fmt.Sprintf("%v (BulkLoad seen: %v) %s", err, seen, trunc(missingList(m)))
+						break
+					}
+					var want []item
+					for i := 0; i < np; i++ {
+						want = append(want, item{i + 1, fmt.Sprintf("geom.(XY).box(XYS[%d])", i)})
+					}
+					for j := 0; j < nl; j++ {
+						want = append(want, item{-(j + 1), fmt.Sprintf("geom.(line).box(LNS[%d])", j)})
+					}
+					sortItems := func(xs []item) {
+						sort.Slice(xs, func(a, b int) bool { return xs[a].id < xs[b].id })
+					}
+					sortItems(got)
+					sortItems(want)
+					good := len(got) == len(want)
+					for i := 0; good && i < len(want); i++ {
+						if got[i].id != want[i].id || !strings.Contains(got[i].box, want[i].box) {
+							good = false
+						}
+					}
+					if !good {
+						problem = fmt.Sprintf("for %d points and %d segments the items loaded are %v; the search callback decodes %v", np, nl, got, want)
+					}
+				}
+			}
+			reportK4(c, f, "record numbering", undec, problem, fmt.Sprintf("point i -> +(i+1), segment j -> -(j+1), each with its own box (%d models)", models))
+		},
+	})
+}
+
+// ---------------------------------------------------------------------------
+// C03.filteredindex: positions in a filtered list are not positions in the full list
+// ---------------------------------------------------------------------------
+
+// conditionallyAppended: v is a list grown by an append that is NOT executed on
+// every iteration of the loop it sits in (a filter: only some elements are kept).
+func conditionallyAppended(v ssa.Value, seen map[ssa.Value]bool, d int) bool {
+	v = resolveCell(v)
+	if d > 8 || seen[v] {
+		return false
+	}
+	seen[v] = true
+	switch x := v.(type) {
+	case *ssa.Phi:
+		for _, e := range x.Edges {
+			if conditionallyAppended(e, seen, d+1) {
+				return true
+			}
+		}
+	case *ssa.Call:
+		b, ok := x.Call.Value.(*ssa.Builtin)
+		if !ok || b.Name() != "append" {
+			return false
+		}
+		f := x.Parent()
+		var loop map[*ssa.BasicBlock]bool
+		var hdr *ssa.BasicBlock
+		for _, h := range f.Blocks {
+			if l := naturalLoop(h); l != nil && l[x.Block()] && (loop == nil || len(l) < len(loop)) {
+				loop, hdr = l, h
+			}
+		}
+		if loop != nil {
+			for _, p := range hdr.Preds {
+				if loop[p] && !x.Block().Dominates(p) {
+					return true
+				}
+			}
+		}
+		return conditionallyAppended(x.Call.Args[0], seen, d+1)
+	case *ssa.UnOp:
+		if x.Op == token.MUL {
+			if al, ok := x.X.(*ssa.Alloc); ok {
+				for _, r := range *al.Referrers() {
+					if st, ok := r.(*ssa.Store); ok && st.Addr == ssa.Value(al) && conditionallyAppended(st.Val, seen, d+1) {
+						return true
+					}
+				}
+			}
+		}
+	}
+	return false
+}
+
+func init() {
+	register(&Rule{
+		ID:    "C03.filteredindex",
+		Props: []string{"C03", "C20"},
+		Doc:   "a position in a filtered list is not a position in the list it was filtered from: when a loop counts up to the length of a list that was built by keeping only some elements (an append that is skipped on some iterations — the non-empty members, say), its counter is used to index that list only, never another slice — `for i := range items { … boxes[i] … m.polys[i] … }` addresses the wrong polygons as soon as an EMPTY member precedes a non-empty one, so some pairs of a MultiPolygon are never compared (or an index runs out of range)",
+		Floor: 0,
+		Run: func(c *Ctx) {
+			n := 0
+			for _, f := range c.P.Funcs {
+				if pk := pkgOf(f); (pk != "geom" && pk != "rtree") || len(f.Blocks) == 0 {
+					continue
+				}
+				for _, cl := range countingLoops(f) {
+					ifi, ok := cl.h.Instrs[len(cl.h.Instrs)-1].(*ssa.If)
+					if !ok {
+						continue
+					}
+					bo, ok := ifi.Cond.(*ssa.BinOp)
+					if !ok || bo.Op != token.LSS {
+						continue
+					}
+					lst, ok := lenOf(bo.Y)
+					if !ok || !conditionallyAppended(lst, map[ssa.Value]bool{}, 0) {
+						continue
+					}
+					n++
+					// every use of the counter as an index: the counter itself (for a range
+					// loop, the incremented value the header tests) and the per-iteration
+					// copies of it (`i` of `for i := range`, captured by closures)
+					base := map[ssa.Value]bool{}
+					if cl.phi != nil {
+						base[cl.phi] = true
+						for k, e := range cl.phi.Edges {
+							if cl.loop[cl.h.Preds[k]] && (e == bo.X || e == stripConv(bo.X)) {
+								base[e] = true
+							}
+						}
+					}
+					cells := map[ssa.Value]bool{}
+					if cl.cell != nil {
+						cells[cl.cell] = true
+					}
+					eachInstr(f, func(in ssa.Instruction) {
+						if al, ok := in.(*ssa.Alloc); ok {
+							if st := uniqueStore(al); st != nil && base[stripConv(st)] {
+								cells[al] = true
+							}
+						}
+					})
+					isCounter := func(v ssa.Value) bool {
+						v = stripConv(v)
+						if base[v] {
+							return true
+						}
+						if ld, ok := v.(*ssa.UnOp); ok && ld.Op == token.MUL {
+							if cells[ld.X] {
+								return true
+							}
+							// the captured counter inside a closure of f
+							if fv, ok := ld.X.(*ssa.FreeVar); ok {
+								if mc, isMC := makeClosureOf(fv.Parent()).(*ssa.MakeClosure); isMC && mc != nil {
+									for i, bnd := range mc.Bindings {
+										if cells[bnd] && fv.Parent().FreeVars[i] == fv {
+											return true
+										}
+									}
+								}
+							}
+						}
+						return false
+					}
+					sameList := func(y ssa.Value) bool {
+						y, l := resolveCell(y), resolveCell(lst)
+						if y == l || sameValue(y, l) {
+							return true
+						}
+						// both are the same variable (loads of one cell), or phis of the same growing list
+						py, _ := accessPath(y)
+						pl, _ := accessPath(l)
+						return py != "" && py == pl
+					}
+					bad := ""
+					for _, g := range append([]*ssa.Function{f}, allAnon(f)...) {
+						eachInstr(g, func(in ssa.Instruction) {
+							ia, ok := in.(*ssa.IndexAddr)
+							if !ok || !isCounter(ia.Index) {
+								return
+							}
+							if g == f && !cl.loop[ia.Block()] {
+								return
+							}
+							if _, isSl := ia.X.Type().Underlying().(*types.Slice); !isSl {
+								return
+							}
+							if !sameList(ia.X) {
+								ys, _ := accessPath(ia.X)
+								bad = trunc(ys) + " at " + c.P.Pos(ia.Pos())
+							}
+						})
+					}
+					ls, _ := accessPath(lst)
+					if ph, ok := resolveCell(lst).(*ssa.Phi); ok && ph.Comment != "" {
+						ls = ph.Comment
+					}
+					pos := firstPos(cl.h)
+					if !pos.IsValid() {
+						pos = bo.Pos()
+					}
+					for _, blk := range f.Blocks {
+						if cl.loop[blk] && !pos.IsValid() {
+							pos = firstPos(blk)
+						}
+					}
+					c.Check(bad == "", pos, FuncName(f), fmt.Sprintf("counter of the loop over the filtered list %s", trunc(ls)), "indexes that list only", "the loop counts the elements of "+trunc(ls)+", a list that holds only the elements that were kept, but its counter indexes "+bad+": element k of the filtered list is not element k there")
+				}
+			}
+			c.Triv(token.NoPos, "-", "summary", fmt.Sprintf("%d loops over filtered lists", n))
+		},
+	})
+}
